@@ -25,6 +25,10 @@ Line-protocol driver for the C06 model (fan-out queue with consumer groups).
   race2 <g> <g2> <n>     (two stores parked at once: Ack n on g ‖ Consume g ‖ GetOrCreate g2 ‖ Sync;GC
       = ack; consume; create; sync; gc — answers the Consume result)
   setappsync <n>         (Sync called in the middle of SetAppendedSeq n = setapp n)
+  wbegin <g> | wend <g>  (three-step Consume, Model/C06Woken.lean: wbegin = a Consume call has passed NotEmpty
+      and sits before the lock of consume() (yield point c06-consume-enter): answers `woken | …`; wend = it
+      takes the lock and returns: answers `<result> | …`. Lines closing the group's handle answer
+      `not-enabled` meanwhile.)
   ackfault <g> <n>       (Ack n on g whose msync fails, Model/C06Msync.lean `State.ackFault`: in the pinned
       shape = ack g n)
   acksync <g> <n> <f>    (Sync; GC while Ack n on g sits in its msync, which then returns — f=1: with an
@@ -47,6 +51,7 @@ import LinVerif.Model.FanOutPark
 import LinVerif.Model.FanOutFault
 import LinVerif.Model.FanOutRepl
 import LinVerif.Model.C06Msync
+import LinVerif.Model.C06Woken
 import LinVerif.Generated.C06
 
 namespace LinVerif.Driver.C06
@@ -266,6 +271,15 @@ handle to read them from). -/
 structure DState where
   ps : PState
   hidden : List Nat
+  /-- groups whose Consume call sits between NotEmpty's return and consume()'s lock (Model/C06Woken.lean) -/
+  woken : List Nat := []
+
+/-- lines that close a group's handle; not enabled while a Consume call of that group is in flight -/
+def closingLine (ws : List String) (woken : List Nat) : Bool :=
+  match ws with
+  | ["stop", g] => match g.toNat? with | some gi => woken.contains gi | none => false
+  | ["reopen"] | ["reopenlazy"] | ["reopenfault", _] | ["expire"] => !woken.isEmpty
+  | _ => false
 
 def hideGroups (hidden : List Nat) (line : String) (s : State) : String :=
   -- re-render the state part of a reply without the hidden groups
@@ -276,7 +290,24 @@ def hideGroups (hidden : List Nat) (line : String) (s : State) : String :=
   | _ => line
 
 def dstepLine (v : Variant) (d : DState) (ws : List String) : DState × String :=
+  if closingLine ws d.woken then (d, "not-enabled") else
   match ws with
+  | ["wbegin", g] =>
+    match g.toNat? with
+    | some gi =>
+      let r := wstep v { ps := d.ps, woken := d.woken } (.wbegin gi)
+      match r.2 with
+      | .wokenNow => ({ d with woken := r.1.woken }, "woken | " ++ showState d.ps.s)
+      | _ => (d, "not-enabled | " ++ showState d.ps.s)
+    | none => (d, "bad-op")
+  | ["wend", g] =>
+    match g.toNat? with
+    | some gi =>
+      let r := wstep v { ps := d.ps, woken := d.woken } (.wend gi)
+      match r.2 with
+      | .res (.res x) => ({ d with ps := r.1.ps, woken := r.1.woken }, showRes x ++ " | " ++ showState r.1.ps.s)
+      | _ => (d, "not-enabled | " ++ showState d.ps.s)
+    | none => (d, "bad-op")
   | ["reopenlazy"] =>
     -- Close ; NewFanOutQueue without looking any group up: the model restores all of them
     let r := pstepLine v d.ps ["reopen"]
